@@ -130,6 +130,19 @@ fn new_buffer(size: (i32, i32), table: &Table) -> Buffer {
     for (slot, fi) in &table.slots {
         buf.set_font(*slot, fi.font.clone());
     }
+    // a font editor changes the glyphs of the document's font IN PLACE (font_iter_mut): for derived fonts in slot 0 the same
+    // glyphs are written again that way, so that the document does not depend on how set_font treated the font object
+    for (slot, fi) in &table.slots {
+        if fi.name.starts_with("derived:") {
+            for (s, f) in buf.font_iter_mut() {
+                if s == slot {
+                    for (c, g) in &fi.font.glyphs {
+                        if let Some(t) = f.get_glyph_mut(*c) { t.data = g.data.clone(); }
+                    }
+                }
+            }
+        }
+    }
     buf.layers.clear();
     buf
 }
